@@ -83,7 +83,7 @@ def absorb_sim(chk, c, res, retry_log=None):
     elif anomaly and anomaly.startswith("san:"):
         chk.violation("sanitizer:" + anomaly[4:], res.err[:2000], {"cmd": res.cmd}, prop="C11")
     elif anomaly == "timeout":
-        chk.inconc("wall-clock backstop on %s (inconclusive, the state-based watchdog did not fire)" % res.tag)
+        chk.inconc_case("wall-clock backstop on %s (the state-based watchdog did not fire)" % res.tag)
     elif anomaly:
         chk.inconc("%s on %s: %s" % (anomaly, res.tag, (res.out[-300:] + " | " + res.err[-400:]).replace("\n", " ")))
     return rec, anomaly
